@@ -213,6 +213,9 @@ func constructScenarios() []Scenario {
 		s2.Scopes = []string{"deliver"}
 		add(s2)
 	}
+	// bare nested blocks
+	add(callSc("c_block/In=", "bare-block", "c_block", "", []Fact{fS("req.http.Trace", "abcd")}, nil, "req.http.Trace"))
+	add(callSc("c_block/In=x", "bare-block(nested in if)", "c_block", "x", []Fact{fS("req.http.Trace", "abcxd")}, nil, "req.http.Trace"))
 	// goto: what the interpreter does with it is outside this property; only logged (compared between runs)
 	for _, in := range []string{"skip", "x"} {
 		s := callSc("c_goto/In="+in, "goto", "c_goto", in, []Fact{fS("req.http.After", "end")}, nil, `req.http.Out "|" req.http.After`)
@@ -803,6 +806,9 @@ func inst(r *rand.Rand, kind string, hold bool, variant string, sc *Scenario, un
 		}
 		called := sortedKeys(sf.Called)
 		switch {
+		case hold && len(sf.NotCalled) > 0 && r.Intn(3) == 0:
+			// "called 0 times" holds for a subroutine that was never called
+			args = []string{`"` + sf.NotCalled[r.Intn(len(sf.NotCalled))] + `"`, "0"}
 		case hold && len(called) > 0:
 			n := called[r.Intn(len(called))]
 			args = []string{`"` + n + `"`}
